@@ -197,7 +197,8 @@ func (w *World) lockSetup() {
 		}
 		s.Release(ps[0], kernel.Decision{Kind: "ok"})
 	}
-	s.Logf("lock: proxy over %s, second list retires %q", filepath.Base(w.llPath), w.llRetired)
+	w.llSteals = kernel.HashChoice(s.Seed, "ll-steals", 2) == 0
+	s.Logf("lock: proxy over %s, second list retires %q, direct refreshes %v", filepath.Base(w.llPath), w.llRetired, w.llSteals)
 }
 
 func (w *World) startOp(kind string, f func(ctx context.Context)) {
@@ -268,7 +269,7 @@ func (w *World) sideOptions() []kernel.Option {
 		// from the driver) run to completion over two refresh periods, every seam answered honestly
 		opts = append(opts, kernel.Option{Key: "log list changes and settles", Weight: 4, Apply: func() {
 			w.llWhich = 1 - w.llWhich
-			w.llSince, w.llStolen = w.s.Now(), false
+			w.llSince = w.s.Now()
 			if err := os.WriteFile(w.llPath, w.llJSON[w.llWhich], 0o644); err != nil {
 				panic("harness: " + err.Error())
 			}
@@ -293,7 +294,7 @@ func (w *World) sideOptions() []kernel.Option {
 			}
 			// root knowledge is renewed when a distributor is built (or once a day): only a change of the list the proxy
 			// had really consumed guarantees a rebuild, i.e. no unsettled change of the file may precede this one
-			w.llSettled, w.rootsSettled = true, !w.llDirty
+			w.llSettled, w.rootsSettled = true, !w.llDirty && !w.llStolen
 			w.llDirty = false
 		}})
 	}
@@ -322,7 +323,7 @@ func (w *World) sideOptions() []kernel.Option {
 		opts = append(opts,
 			kernel.Option{Key: "log list changes", Weight: 2, Apply: func() {
 				w.llWhich = 1 - w.llWhich
-				w.llSince, w.llStolen, w.llSettled = w.s.Now(), false, false
+				w.llSince, w.llSettled = w.s.Now(), false
 				w.llDirty = true
 				for _, c := range w.calls {
 					if c.Kind == "proxy" && !c.Checked {
@@ -334,12 +335,6 @@ func (w *World) sideOptions() []kernel.Option {
 				}
 				w.s.Fault("loglist.change")
 			}},
-			kernel.Option{Key: "llm refresh", Weight: 1, Apply: func() {
-				// a direct RefreshLogList consumes the change without notifying anybody: from here on it cannot
-				// be told which list the Proxy works from, until the file changes again
-				w.llStolen, w.llDirty = true, true
-				w.startOp("llm-refresh", func(ctx context.Context) { _, _ = w.llm.RefreshLogList(ctx) })
-			}},
 			kernel.Option{Key: "llm two latest", Weight: 1, Apply: func() {
 				w.startOp("llm-two-latest", func(context.Context) { w.llm.GetTwoLatestLogLists() })
 			}},
@@ -347,6 +342,16 @@ func (w *World) sideOptions() []kernel.Option {
 				w.startOp("llm-last-json", func(context.Context) { w.llm.LastJSON() })
 			}},
 		)
+	}
+	if w.proxy != nil && w.llSteals {
+		opts = append(opts, kernel.Option{Key: "llm refresh", Weight: 1, Apply: func() {
+			// A direct RefreshLogList consumes whatever the file holds without notifying anybody. From here on it cannot
+			// be told which list the Proxy works from - not even after the file changes again: if it changes back to what
+			// this call has read, the refresher sees no change at all. (Undoing the steal at the next change of the file
+			// was a false alarm of this oracle, found by the thorough tier: file B, direct refresh, file A, file B.)
+			w.llStolen, w.llDirty = true, true
+			w.startOp("llm-refresh", func(ctx context.Context) { _, _ = w.llm.RefreshLogList(ctx) })
+		}})
 	}
 	return opts
 }
